@@ -6,6 +6,8 @@ CONSTANTS
   MaxOps = 6
   Notifs <- NotifsS
   MaxNotif = 2
+  MaxDup = 0
+  DistinctPatterns = FALSE
   Bug = "cmdId"
   OneQueryPerCmd = FALSE
 CHECK_DEADLOCK FALSE
